@@ -3,7 +3,6 @@ package main
 import (
 	"encoding/hex"
 	"fmt"
-	"os"
 	"os/exec"
 	"regexp"
 	"strconv"
@@ -51,6 +50,10 @@ func callPool(r *rng, n int) []string {
 		if k++; k >= n {
 			break
 		}
+	}
+	// unknown items whose keys collide when truncated: ordering ties show as run-to-run differences
+	for _, c := range genUnknownTies(r, 2).Cases {
+		pool = append(pool, c)
 	}
 	for i := 0; i < n/2; i++ {
 		txt := randFileText(r, hostedFileTypes()[i%len(hostedFileTypes())], fileKnobs{maxGroup: 5, fieldPct: 30})
@@ -211,7 +214,7 @@ var sideSections = regexp.MustCompile(`^H[^;]*;C[^;]*|;UM\[[^\]]*\];UF\[[^\]]*\]
 func runInFreshProcess(c string) (string, bool) {
 	cmd := exec.Command(selfExe(), "worker")
 	cmd.Stdin = strings.NewReader(c + "\n")
-	cmd.Stderr = os.Stderr
+	cmd.Stderr = realStderr
 	out, err := cmd.Output()
 	if err != nil {
 		return "", false
